@@ -426,6 +426,23 @@ def judge_convert(c, lp):
     return None
 
 
+def own_box(c, t):
+    import freud
+    return freud.box.Box.from_box([float(x) for x in c["frames"][t]["len"]])
+
+
+def judge_boxes(c, lb):
+    """every frame must be tessellated in ITS OWN periodic box (the property: cell volumes sum to the box volume of the frame)"""
+    for t, f in enumerate(c["frames"]):
+        b = lb[t]
+        L = [float(x) for x in f["len"]]
+        got = [b.Lx, b.Ly] + ([b.Lz] if c["ndim"] == 3 else [])
+        if bool(b.is2D) != (c["ndim"] == 2) or any(abs(a - x) > 1e-6 * x for a, x in zip(got, L)):      # (freud keeps box lengths in float32)
+            return "convert:box", (f"frame {t} is handed to the tessellation in a box of lengths {got} but its own box has lengths {L} "
+                                   f"(cell volumes cannot sum to the box volume of that frame)")
+    return None
+
+
 def nmaxs_of(choice, lines, N):
     out = []
     for t, ch in enumerate(choice):
@@ -456,10 +473,12 @@ def run_cal(run, cases, count=True):
                 continue
             if why:
                 dis.append((c, "convert_configuration: " + why))
-            j = judge_convert(c, lp)
+            j = judge_convert(c, lp) or judge_boxes(c, lb)
             if j:
                 sf.append((c, j[0], j[1]))
-            raws = [freud_raw(lb[t], lp[t]) for t in range(c["T"])]
+            # freud's raw output is computed in the harness's OWN box of each frame (not the one the real code built), so that a
+            # wrong box handed to freud by the code is attributed to the code and not to freud
+            raws = [freud_raw(own_box(c, t), lp[t]) for t in range(c["T"])]
             bad = [raw_contract(nl, w, vol, c["N"], box_volume(c["frames"][t], c["ndim"])) for t, (nl, w, vol) in enumerate(raws)]
             freud_bad = None
             if any(bad):
@@ -642,7 +661,7 @@ def run_vm(run, cases, count=True):
             def fd(bi, pi, n):
                 key = (bi, pi, n)
                 if key not in cache[ck]["fd"]:
-                    cache[ck]["fd"][key] = fd_volumes(lb[bi], lp[pi], n, ndim, delt)
+                    cache[ck]["fd"][key] = fd_volumes(own_box(c, bi), lp[pi], n, ndim, delt)      # the harness's own box of frame bi
                 return cache[ck]["fd"][key]
 
             m = {"c": c, "call": call, "real": real, "spec_i": None, "impl_i": None}
